@@ -32,7 +32,7 @@ def model_checks(tier):
 
 
 def cases(tier, seed, info):
-    n = 1500 if tier == 'quick' else 40000
+    n = 1500 if tier == 'quick' else 150000
     out = [dict(seed=seed * 3301 + j, start=j, n=50) for j in range(0, n, 50)]
     info['items'] = n
     return out
